@@ -185,7 +185,8 @@ pub fn get_margin_ratio_calc_option(
     // a dust position can be worth less than one unit at this price: there is no ratio to speak
     // of, but its sign is that of the remaining equity - taking one unit as the notional keeps it
     // (a ratio of zero would make a well-margined remainder liquidatable)
-    let position_notional = if position_notional.is_zero() {
+    let below_one_unit = position_notional.is_zero();
+    let position_notional = if below_one_unit {
         Uint128::new(1u128)
     } else {
         position_notional
@@ -197,6 +198,12 @@ pub fn get_margin_ratio_calc_option(
         - Integer::new_positive(remain_margin.bad_debt))
         * Integer::new_positive(config.decimals))
         / Integer::new_positive(position_notional);
+
+    // the quotient by a notional below one unit is larger than the quotient by one whole unit:
+    // positive equity lies above every maintenance ratio, 100% included
+    if below_one_unit && margin_ratio > Integer::zero() {
+        return Ok(margin_ratio + Integer::new_positive(1u128));
+    }
 
     Ok(margin_ratio)
 }
